@@ -97,8 +97,17 @@ def build_harness(workdir):
     with Lock(os.path.join(WORK, "harness.lock")):
         shutil.copyfile(os.path.join(REPO, "go.sum"), os.path.join(HARNESS, "go.sum"))
         out = os.path.join(workdir, "dh")
-        rc, o, e = sh(["go", "build", "-tags", "verif", "-o", out, "./cmd/dh"], cwd=HARNESS, env=GOENV,
-                      timeout=1800)
+        cmd = ["go", "build", "-tags", "verif", "-o", out]
+        if os.path.realpath(REPO) != "/repo":
+            # DIRK_REPO names another checkout (background sweeps on a snapshot): same module file, other path
+            alt = os.path.join(workdir, "go.alt.mod")
+            with open(os.path.join(HARNESS, "go.mod")) as f:
+                mod = f.read().replace("=> /repo", "=> " + os.path.realpath(REPO))
+            with open(alt, "w") as f:
+                f.write(mod)
+            shutil.copyfile(os.path.join(REPO, "go.sum"), os.path.join(workdir, "go.alt.sum"))
+            cmd.append("-modfile=" + alt)
+        rc, o, e = sh(cmd + ["./cmd/dh"], cwd=HARNESS, env=GOENV, timeout=1800)
         if rc != 0:
             raise Broken("harness-build", (o + e)[-4000:])
     _harness_bin = out
